@@ -1040,6 +1040,15 @@ class C04Interrupts(Oracle):
             # a Watch in a repeating scope is registered anew by every invocation of that scope: only activations that
             # follow the cancel without a new registration in between belong to the cancelled invocation
             regs = [e[0] for e in w.events if e[1] == "scope_start" and e[2] == n.id]
+            # ... and a new registration needs a new activation of the enclosing Alarm: a registration event without one
+            # is the cancelled invocation coming back to life, not a new invocation
+            alarm_anc = [a.id for a in n.ancestors() if a.kind == "Alarm"]
+            if alarm_anc:
+                t0 = min(x for x in (co, self.cancelled_at.get(n.id)) if x is not None) if \
+                    (co is not None or self.cancelled_at.get(n.id) is not None) else None
+                if t0 is not None:
+                    regs = [r for r in regs if r <= t0 or any(e[1] == "scope_activate" and e[2] in alarm_anc and t0 < e[0] <= r
+                                                              for e in w.events)]
             late = [a for a in acts if co is not None and a > co and not any(co < r <= a for r in regs)]
             if co is not None and late:
                 # the cancel was offered by the run log at request time (tick co complete) and accepted, yet the body was
